@@ -274,7 +274,10 @@ class Flags:
         dep = list(self.dep)
         if out_override is not None:
             dep = [(out_override + '.d') if x == 'out.d' else x for x in dep]
-        a += self.misc + dep + self.extra
+        extra = list(self.extra)
+        if out_override is not None:
+            extra = [(out_override + '.dia') if x == 'diag.dia' else x for x in extra]
+        a += self.misc + dep + extra
         a += self.mode
         a.append(self.src)
         out = self.out if out_override is None else out_override
@@ -327,12 +330,15 @@ def preprocess_failure_class(direct, wrapped):
     the preprocessor's part of the direct stderr, stale outputs that the direct run left alone are removed"""
     if direct[0] == 0 or wrapped[0] != direct[0] or direct[1] != wrapped[1]:
         return False
-    dl = direct[2].split(b'\n')
-    if any(l not in dl for l in wrapped[2].split(b'\n')):
+    import re
+    summary = re.compile(rb'^\d+ (warning|error)s?( and \d+ (warning|error)s?)? generated\.$')
+    dl = [l for l in direct[2].split(b'\n') if not summary.match(l)]
+    if any(l not in dl for l in wrapped[2].split(b'\n') if not summary.match(l)):
         return False
     for k in set(direct[3]) | set(wrapped[3]):
         x, y = direct[3].get(k, 'absent'), wrapped[3].get(k, 'absent')
-        if x != y and not (x == 'absent' and y is None):
+        # stale outputs removed by sccache / side outputs (.dia) the failing direct run still wrote
+        if x != y and not (y is None or y == 'absent'):
             return False
     return True
 
@@ -381,6 +387,16 @@ def source_md5_class(direct, wrapped):
                 return False
         found = True
     return found
+
+
+def command_line_numbering_class(direct, wrapped):
+    """finding C01-S37: everything equal except the line numbers inside clang's synthetic `<command line>` buffer quoted by a
+    diagnostic (sccache emits the forced includes before the defines, so the buffer is laid out differently)"""
+    import re
+    if direct[0] != wrapped[0] or direct[1] != wrapped[1] or direct[3] != wrapped[3] or direct[2] == wrapped[2]:
+        return False
+    norm = lambda b: re.sub(rb'<command line>:\d+:', b'<command line>:N:', re.sub(rb'<built-in>:\d+:', b'<built-in>:N:', b))
+    return norm(direct[2]) == norm(wrapped[2])
 
 
 def predict(model_fn, kind, args, rsp_files):
@@ -453,6 +469,8 @@ def run_history(hid, rng, sccache, model_fn, port, verdict, n_ops, known_ids):
             diffs = describe_diff(direct, wrapped)
             if diffs and not expect_known and preprocess_failure_class(direct, wrapped):
                 expect_known = 'C01-S33'
+            if diffs and not expect_known and command_line_numbering_class(direct, wrapped):
+                expect_known = 'C01-S37'
             if diffs and not expect_known and '-g' in args and source_md5_class(direct, wrapped):
                 expect_known = 'C01-S36'
             if diffs:
